@@ -1126,19 +1126,21 @@ fn op_send(sim: &Sim, prop: &str, node: &mut Node, model: &Model, forced: Option
         return Some(fail(prop, "C16.tx", format!("send_packet crashed: {:?}", c), crash_sig("send", c)));
     }
     if let Some(q) = &pending_rx {
-        let untouched = rx_left.len() == 1 && matches!(&rx_left[0], RxItem::Pkt(x) if packet_eq(x, q));
-        if !untouched || d.fired.iter().any(|(_, x, _)| packet_eq(x, q) && !packet_eq(x, &p)) {
+        // (whether a send may silently *take* pending input is not C16's subject; handing
+        // it to local handlers is: "invokes no local handler" / "exactly once ... the packet")
+        if d.fired.iter().any(|(_, x, _)| packet_eq(x, q) && !packet_eq(x, &p)) {
             return Some(fail(
                 prop,
                 "C16.tx",
                 format!(
-                    "send_packet({}) took received traffic off the link ({} of 1 pending packet left) or handed it to local handlers: sending routes the packet being sent and nothing else",
+                    "send_packet({}) handed received traffic that was pending on the link ({}) to local handlers: sending routes the packet being sent and nothing else",
                     show_packet(&p),
-                    rx_left.len()
+                    show_packet(q)
                 ),
-                "send-consumed-received-traffic".to_string(),
+                "send-dispatched-received-traffic".to_string(),
             ));
         }
+        let _ = &rx_left;
         sim.probe("send_with_received_traffic_pending");
     }
     let exp = if loops { expected_tokens(model, true) } else { BTreeSet::new() };
